@@ -27,7 +27,7 @@ fn avg(o: &mut Out, kind: i64, r: Option<Result<f64, graphrs::Error>>) {
     }
 }
 
-fn calls(g: &G, nn: Option<&[i64]>, weighted: bool, o: &mut Out) {
+fn calls(g: &G, nn: Option<&[i64]>, weighted: bool, directed: bool, o: &mut Out) {
     // triangles
     let r = guard(|| cluster::triangles(g, nn));
     o.obs(30, &[vec![res_code(&r)]], &[]);
@@ -53,9 +53,17 @@ fn calls(g: &G, nn: Option<&[i64]>, weighted: bool, o: &mut Out) {
         o.obs(1039, &rows, &[]);
     }
     // square clustering: plain HashMap, no error channel
+    // (on a directed graph the value depends on the iteration order of the successor
+    // HashSet - `u_nbrs.contains(w)` is not symmetric - and the property does not fix it:
+    // only the key set is printed there)
     let r = guard(|| cluster::square_clustering(g, nn));
     match r {
         None => o.obs(40, &[vec![PANIC]], &[]),
+        Some(m) if directed => {
+            o.obs(40, &[vec![0]], &[]);
+            let rows: Vec<Vec<i64>> = m.keys().map(|k| vec![*k]).collect();
+            o.obs(1041, &rows, &[]);
+        }
         Some(m) => map_f(o, 40, 1041, Some(Ok(m))),
     }
     if weighted {
@@ -107,10 +115,10 @@ pub fn run_case(lines: &[Vec<String>], o: &mut Out) {
         _ => o.obs(36, &[vec![res_code(&r)]], &[]),
     }
     o.obs(29, &[vec![-1]], &[]);
-    calls(&g, None, weighted, o);
+    calls(&g, None, weighted, specs.directed, o);
     for (i, s) in subs.iter().enumerate() {
         o.obs(29, &[vec![i as i64]], &[]);
-        calls(&g, Some(s.as_slice()), weighted, o);
+        calls(&g, Some(s.as_slice()), weighted, specs.directed, o);
     }
     // kind 49: the model evaluates "model = brute-force definition" on every case; constant here
     o.obs(49, &[vec![1]], &[]);
